@@ -5,7 +5,7 @@ Require Import List Arith Bool NArith ZArith String.
 Import ListNotations.
 Require Import Base.Bytes.
 Require Import Conc.TwoPLDefs Conc.TwoPL Conc.LockModel Conc.Skel Conc.SkelSem Conc.SkelSound
-               Conc.GroundBridge Conc.Corollaries Conc.Chain.
+               Conc.GroundBridge Conc.Corollaries Conc.Chain Conc.Alias.
 
 (* Two-phase locking => serializable, for any number of transactions and any interleaving that
    respects reader-writer exclusion: the final store and everything every transaction read
@@ -75,6 +75,25 @@ Theorem C05_linearizable :
     (forall t t', precedes bytes N Val Lst s t t' -> before (commit_order bytes N Val Lst s) t t').
 Proof. exact executors_serializable. Qed.
 Print Assumptions C05_linearizable.
+
+(* Premise of all the above for REPLIES: [wl] demands that a read happens while the guard is held,
+   but the executors hand the stored byte slice to the reply, which is serialised after the lock is
+   released.  The premise replies_do_not_alias_mutable_state (Conc/Alias.v: no in-place write into a
+   stored byte slice, or no reply handing one out) makes the late read equal to the read at the
+   lock point; it is discharged on every run by the regenerated obligation obl_replies.  Without
+   it: a reader that releases the read lock before reading two positions of a value, interleaved
+   with a writer holding the write lock for both its writes, is lock-legal, the writer is wl, the
+   reader is not, and it observes (old, new) -- a value no serial order produces. *)
+Theorem C05_aliasing_reply_refuted :
+  legal nat nat nat (nat * nat) Nat.eqb torn_schedule /\
+  wl nat nat nat (nat * nat) Nat.eqb guard0 (proj nat nat nat (nat * nat) 2 torn_schedule) = true /\
+  wl nat nat nat (nat * nat) Nat.eqb guard0 (proj nat nat nat (nat * nat) 1 torn_schedule) = false /\
+  locals nat nat (nat * nat) (run nat nat nat (nat * nat) Nat.eqb torn_schedule st0) 1 = (0, 1) /\
+  locals nat nat (nat * nat) (run nat nat nat (nat * nat) Nat.eqb (on 1 late_reader ++ on 2 writer) st0) 1 = (0, 0) /\
+  locals nat nat (nat * nat) (run nat nat nat (nat * nat) Nat.eqb (on 2 writer ++ on 1 late_reader) st0) 1 = (1, 1) /\
+  wl nat nat nat (nat * nat) Nat.eqb guard0 good_reader = true.
+Proof. exact aliasing_reply_refuted. Qed.
+Print Assumptions C05_aliasing_reply_refuted.
 
 (* ---- corollaries: instances for arbitrary schedules (locations may share a lock) ---- *)
 Theorem C05_no_lost_increment :
